@@ -349,7 +349,8 @@ func scenarioC12(c *hlib.RunCtx) *hlib.Violation {
 	for i := 0; i < nreq && viol == nil; i++ {
 		method := "POST"
 		if t.Bool(1, 6) {
-			method = []string{"GET", "PUT", "DELETE", "HEAD", "PATCH", "OPTIONS"}[t.Draw(6)]
+			// (method names are case-sensitive: "post" is not POST)
+			method = []string{"GET", "PUT", "DELETE", "HEAD", "PATCH", "OPTIONS", "post", "Post", "pOST", "POSTS", "POS"}[t.Draw(11)]
 		}
 		big := t.Bool(1, 8)
 		r := genReport(t, cfg.Ref, big)
